@@ -131,3 +131,37 @@ Proof.
   split; [rewrite (stack_words_print p w _ len 0 0), E; reflexivity|].
   split; [apply chunk_array_agree|]. destruct w; cbn; lia.
 Qed.
+
+(* ---- the ledger of the lookup table: at most 24 bytes per 16-byte descriptor of the memory-list stream *)
+Lemma filter_blen_le : forall A (f : A -> bool) l, blen (filter f l) <= blen l.
+Proof.
+  intros A f l. unfold blen. induction l as [|x t IH]; cbn [filter length]; [lia|].
+  destruct (f x); cbn [length]; lia.
+Qed.
+
+Lemma read_memory_list_len_sat : forall p e all b K, wf_bytes b -> blen b < T62 -> ALLOC_C * blen b <= K ->
+  sat K (fun regions => 0 <= blen regions /\ blen regions * FSZ_MEMDESC + 4 <= blen b) (read_memory_list p e all b).
+Proof.
+  intros p e all b K Hwf Hlen HK. unfold read_memory_list.
+  eapply sat_bind; [apply read_stream_list_sat; try assumption; usz; lia|].
+  intros raws (H0 & H1 & H2).
+  eapply sat_bind; [apply sat_alloc; usz; lia|]. intros _ _. apply sat_ret.
+  pose proof (filter_blen_le _ (memory_ok e all) raws). pose proof (blen_nonneg _ (filter (memory_ok e all) raws)).
+  unfold FSZ_MEMDESC in *. lia.
+Qed.
+
+Lemma table_ledger_backed : forall p file, wf_bytes file -> blen file < T62 ->
+  forall a, In a (table_ledger p file) -> 0 <= a /\ 2 * a <= 3 * blen file /\ a <= ALLOC_FILE_C * blen file.
+Proof.
+  intros p file Hwf Hlen a Hin. unfold table_ledger in Hin.
+  destruct (read_header file) as [[e ds]| | |]; try contradiction.
+  pose proof (blen_nonneg _ file) as Hnn.
+  assert (S : sat (ALLOC_FILE_C * blen file) (fun regions => 0 <= blen regions /\ blen regions * FSZ_MEMDESC + 4 <= blen file) (s_mem p e file ds)).
+  { unfold s_mem. eapply get_stream_sat; [exact Hwf|]. intros s Hs Hl. pose proof (blen_nonneg _ s).
+    eapply sat_weaken; [apply Z.le_refl| |apply read_memory_list_len_sat; try assumption; unfold ALLOC_FILE_C, ALLOC_C, T62 in *; lia].
+    intros regions (R0 & R1). split; [exact R0|lia]. }
+  destruct S as (_ & _ & _ & S3).
+  destruct (snd (s_mem p e file ds)) as [regions| | |]; try contradiction.
+  destruct Hin as [<-|[]]. destruct (S3 regions eq_refl) as (R0 & R1).
+  unfold MSZ_RANGE_ENTRY, FSZ_MEMDESC, ALLOC_FILE_C in *. lia.
+Qed.
